@@ -13,7 +13,7 @@ import (
 
 func init() {
 	register("C18",
-		"DECIDED: D1 decoders are safe and framed — the six primitive decoders are unrolled completely (their loops run over a literal counter, so every CFG path is enumerated exhaustively, 0 abandoned prefixes): on every path each byte read (*b)[k] is preceded by a failed `len(*b) <= k` test for that same k, k never exceeds 8 (at most 9 bytes inspected), the fixed float reads 8 bytes only after `len(*b) < 8` failed, every path that runs out of bytes returns io.EOF without storing to the cursor, and every success path advances the cursor by exactly (last index read + 1) (8 for the fixed float, 1 for a flag) whatever follows; DecodeVarint32 returns the overflow error exactly outside [MinInt32, MaxInt32]. "+
+		"DECIDED: D1 decoders are safe and framed — the six primitive decoders are unrolled completely (their loops run over a literal counter, so every CFG path is enumerated exhaustively, 0 abandoned prefixes): on every path each byte read (*b)[k] is preceded by a failed `len(*b) <= k` test for that same k, k never exceeds 8 (at most 9 bytes inspected), the fixed float reads 8 bytes only after `len(*b) < 8` failed, every path that runs out of bytes returns io.EOF without storing to the cursor, and every success path advances the cursor by exactly (last index read + 1) (8 for the fixed float, 1 for a flag) whatever follows; DecodeVarint32 returns the overflow error exactly outside [MinInt32, MaxInt32]; a decoder that delegates to another decoder hands it the caller's own cursor and does not move the cursor itself (its framing is the inner decoder's). "+
 			"D2 encoders — completely unrolled likewise: every path of the variable-length encoders appends between 1 and 9 single bytes and does nothing else to the buffer; the fixed float appends exactly 8. "+
 			"D3 size functions are tied to the encoders — both size tables are filled from len of a buffer written by the corresponding encoder; Varint64Size applies Uvarint64Size to the same zig-zag term EncodeVarint64 hands to EncodeUvarint64; Varfloat64Size recomputes the same transformed word as EncodeVarfloat64; table index direction matches group direction (LSB-first ↔ leading zeros, MSB-first ↔ trailing zeros). "+
 			"D4 inverse pairs by shape — zig-zag (v<<1)^(v>>63) arithmetic / (u>>1)^−(u&1) logical; var-float chain [+1, bits, −bits(1), rotl k] undone by [rotl −k, +bits(1), frombits, −1] with the same k. "+
